@@ -230,6 +230,11 @@ func (p c18) Run(t *testing.T, c *Case, s Sched, keepLog bool) *Obs {
 			}
 			live.Lines += bytes.Count(out, []byte("\n"))
 			checkTree("a fault-free print", ci, "", 0)
+			if ci%16 == 0 {
+				// a history with a failing call in between: printing a malformed tree (nil command deep inside compound
+				// lists) panics or fails; that must leave no trace in later prints of the good tree
+				safePrint(DecodeConfig(ci), io.Discard, c18BadTree())
+			}
 			out2, ok := freeOut(ci)
 			if ok && !bytes.Equal(out, out2) {
 				add("print-not-deterministic", fmt.Sprintf("two prints of the same tree differ (config %d): %s", ci, firstDiff(string(out), string(out2))), narrow(ci, "", 0))
@@ -385,4 +390,11 @@ func b2i(b bool) int {
 		return 1
 	}
 	return 0
+}
+
+// c18BadTree: a tree the parser never produces (a nil command three levels deep).
+func c18BadTree() ast.Node {
+	inner := &ast.Cmd{Expr: &ast.Group{Lbrace: ast.NewPos(1, 1), Rbrace: ast.NewPos(3, 1), List: []ast.Command{nil}}}
+	mid := &ast.Cmd{Expr: &ast.Subshell{Lparen: ast.NewPos(1, 1), Rparen: ast.NewPos(4, 1), List: []ast.Command{inner, inner}}}
+	return &ast.Cmd{Expr: &ast.Group{Lbrace: ast.NewPos(1, 1), Rbrace: ast.NewPos(5, 1), List: []ast.Command{mid, mid}}}
 }
